@@ -194,6 +194,9 @@ fn run_case(c: &Case) -> Option<(String, String)> {
     if mode[0] == "-o" {
         mode[1] = scratch.join("out.raw").display().to_string();
     }
+    if mode[0] == "SCAN" {
+        mode.clear();
+    }
     a.extend(mode);
     // every other case finds an older, longer statistics file at the destination: it must be replaced, not patched
     if fp_model::util::fnv(format!("{}{:?}{}", c.label, c.mode, c.bytes.len()).as_bytes()) % 2 == 0 {
@@ -421,6 +424,9 @@ fn modes() -> Vec<Vec<&'static str>> {
         vec!["view", "its-readout-frames"],
         vec!["view", "its-readout-frames-data"],
         vec!["-o", "OUT"],
+        // no sub-command, no output: the input is only scanned, the statistics file (-S) is the result (no report is
+        // printed: stdout is the default destination of data)
+        vec!["SCAN"],
     ]
 }
 
@@ -466,7 +472,9 @@ pub fn run(tier: Tier) -> i32 {
         let l0 = walked[0].rdh.link_id;
         for m in modes() {
             let mut fl: Vec<Option<Filter>> = if m[0] == "-o" { vec![] } else { vec![None] };
-            fl.extend([Some(Filter::Link(l0)), Some(Filter::Link((l0 + 1) % 3)), Some(Filter::Fee(gen::fee_of_link(1))), Some(Filter::LayerStave(gen::fee_of_link(0))), Some(Filter::Link(9))]);
+            if m[0] != "SCAN" {
+                fl.extend([Some(Filter::Link(l0)), Some(Filter::Link((l0 + 1) % 3)), Some(Filter::Fee(gen::fee_of_link(1))), Some(Filter::LayerStave(gen::fee_of_link(0))), Some(Filter::Link(9))]);
+            }
             for (fi, f) in fl.iter().enumerate() {
                 if !tier.is_thorough() && fi > 2 && m[0] != "check" {
                     continue;
@@ -493,7 +501,9 @@ pub fn run(tier: Tier) -> i32 {
             let errs = if m[0] == "check" { Some((0u64, vec![])) } else { None };
             let links: Vec<u8> = w.links.iter().map(|l| l[0].packet.rdh.link_id).collect();
             let mut fl = if m[0] == "-o" { vec![] } else { vec![None] };
-            fl.push(Some(Filter::Link(links[links.len() - 1])));
+            if m[0] != "SCAN" {
+                fl.push(Some(Filter::Link(links[links.len() - 1])));
+            }
             for f in fl {
                 cases.push(Case { label: format!("witness {}", w.name), bytes: bytes.clone(), mode: m.clone(), filter: f, errors: errs.clone(), toml: false, stdin: false });
             }
